@@ -52,7 +52,8 @@ pub fn gen_action(r: &mut Rng, present: bool, cur: &Option<String>, bad_pct: usi
 	} else {
 		match (cur, bad) {
 			(Some(c), false) => match r.below(6) { 0 | 1 => GA::None, 2 | 3 => GA::Edit(c.clone(), fresh(r)), 4 => GA::Edit(c.clone(), c.clone()), _ => GA::Remove(c.clone()) },
-			(Some(c), true) => match r.below(3) { 0 => GA::Add(fresh(r)), 1 => GA::Remove(wrong(r, c, fresh)), _ => GA::Edit(wrong(r, c, fresh), fresh(r)) },
+			// an addition that collides with what is there — with another value, or with the IDENTICAL one (still a collision)
+			(Some(c), true) => match r.below(4) { 0 => GA::Add(fresh(r)), 1 => GA::Add(c.clone()), 2 => GA::Remove(wrong(r, c, fresh)), _ => GA::Edit(wrong(r, c, fresh), fresh(r)) },
 			(None, false) => if r.chance(1, 2) { GA::None } else { GA::Add(fresh(r)) },
 			(None, true) => if r.chance(1, 2) { GA::Remove(fresh(r)) } else { GA::Edit(fresh(r), fresh(r)) },
 		}
